@@ -336,7 +336,8 @@ type TeletextOptions struct {
 func ReadFromTeletext(r io.Reader, o TeletextOptions) (s *Subtitles, err error) {
 	// Init
 	s = &Subtitles{}
-	var dmx = astits.NewDemuxer(context.Background(), newTeletextReader(r))
+	var tr = newTeletextReader(r)
+	var dmx = astits.NewDemuxer(context.Background(), tr)
 
 	// Get the teletext PID
 	var pid uint16
@@ -401,6 +402,12 @@ func ReadFromTeletext(r io.Reader, o TeletextOptions) (s *Subtitles, err error) 
 		ps = append(ps, b.process(d.PES, t)...)
 	}
 
+	// The stream didn't end, it failed
+	if re, ok := tr.(interface{ readErr() error }); ok && re.readErr() != nil {
+		err = fmt.Errorf("astisub: reading failed: %w", re.readErr())
+		return
+	}
+
 	// Dump buffer
 	ps = append(ps, b.dump(lastTime)...)
 
@@ -414,8 +421,13 @@ func ReadFromTeletext(r io.Reader, o TeletextOptions) (s *Subtitles, err error) 
 // teletextReader makes sure every read fills the buffer unless the stream ends: the demuxer detects the packet size
 // with a single read and fails if the reader delivers fewer bytes than requested
 type teletextReader struct {
-	r io.Reader
+	err error // last error other than io.EOF returned by r
+	r   io.Reader
 }
+
+// readErr returns the read failure, if any. The demuxer takes some of them (io.ErrUnexpectedEOF) for the end of the
+// stream, hence they are reported once it is done.
+func (r *teletextReader) readErr() error { return r.err }
 
 func (r *teletextReader) Read(p []byte) (n int, err error) {
 	for n < len(p) && err == nil {
@@ -427,6 +439,9 @@ func (r *teletextReader) Read(p []byte) (n int, err error) {
 	// an io.ErrUnexpectedEOF returned by the underlying reader itself, is passed on.
 	if n > 0 && err == io.EOF {
 		err = nil
+	}
+	if err != nil && err != io.EOF {
+		r.err = err
 	}
 	return
 }
